@@ -537,6 +537,28 @@ fn matrix_ptr<E: Elem + cgmath::BaseFloat>(d: &mut Draw) -> Outcome {
                 ensure!(changed == 1, "matrix-as_mut_ptr", "{}::as_mut_ptr() write at {} changed {} entries", stringify!($M), i, changed);
                 d.configs += 1;
             }
+            // Matrix::swap_elements / swap_rows / swap_columns exchange exactly the named (column, row) slots
+            for a in 0..N * N {
+                for b in 0..N * N {
+                    let mut w = m;
+                    Matrix::swap_elements(&mut w, (a / N, a % N), (b / N, b % N));
+                    let mut model: Vec<E> = (0..N * N).map(|i| t[i]).collect();
+                    model.swap(a, b);
+                    ensure!((0..N * N).all(|i| w[i / N][i % N] == model[i]), "matrix-swap_elements", "{}::swap_elements(({},{}),({},{})) exchanged other slots", stringify!($M), a / N, a % N, b / N, b % N);
+                    d.configs += 1;
+                }
+            }
+            for a in 0..N {
+                for b in 0..N {
+                    let mut w = m;
+                    w.swap_rows(a, b);
+                    ensure!((0..N * N).all(|i| w[i / N][i % N] == t[(i / N) * N + if i % N == a { b } else if i % N == b { a } else { i % N }]), "matrix-swap_rows", "{}::swap_rows({},{})", stringify!($M), a, b);
+                    let mut w = m;
+                    w.swap_columns(a, b);
+                    ensure!((0..N * N).all(|i| w[i / N][i % N] == t[(if i / N == a { b } else if i / N == b { a } else { i / N }) * N + i % N]), "matrix-swap_columns", "{}::swap_columns({},{})", stringify!($M), a, b);
+                    d.configs += 2;
+                }
+            }
         }};
     }
     one!(Matrix2, 2);
